@@ -100,6 +100,15 @@ impl SubCheck for FromSecs {
                 let fdt = single(f).ok_or_else(|| format!("FixedOffset.timestamp_opt({s}, {ns}) not Single"))?;
                 ensure_eq!(fdt.naive_utc(), dt.naive_utc(), "FixedOffset({off}).timestamp_opt instant");
                 ensure_eq!(fdt.offset().local_minus_utc(), off, "FixedOffset.timestamp_opt offset");
+                // the count read back through the formatting route (%s), whatever the offset of the value
+                {
+                    use std::fmt::Write;
+                    let (mut a, mut b) = (String::new(), String::new());
+                    let ra = call("DateTime<Utc>::format(%s)", || write!(a, "{}", dt.format("%s")))?;
+                    let rb = call("DateTime<FixedOffset>::format(%s)", || write!(b, "{}", fdt.format("%s")))?;
+                    ensure!(ra.is_ok() && a == s.to_string(), "from_timestamp({s}, {ns}).format(\"%s\") = {a:?}");
+                    ensure!(rb.is_ok() && b == s.to_string(), "FixedOffset({off}).timestamp_opt({s}, {ns}).format(\"%s\") = {b:?}");
+                }
                 if ns < 1_000_000_000 {
                     let full = t + ns as i128;
                     ensure_eq!(dt.timestamp_millis() as i128, full.div_euclid(1_000_000), "timestamp_millis of ({s}, {ns})");
